@@ -340,6 +340,13 @@ pub fn check_expr(expr: &str, cov: &mut Cov) -> Result<bool, (String, String)> {
                 cov.hit("not-judged:reference-unsure-in-one-dialect");
                 continue;
             }
+            if !ok && runs.iter().any(|r| !r.finished) {
+                // one dialect raises where the other yields a value: the two only part through dialect-dependent arithmetic
+                // (`1e100 % 3` is 0 under Lua 5.1's `a - floor(a/b)*b` and 1 under Luau's fmod), and a claim made under the
+                // semantics of the raising dialect cannot be refuted by the value the other one computes
+                cov.hit("not-judged:one-dialect-raises");
+                continue;
+            }
             if !ok {
                 // strings that embed number->string conversions: accept any acceptable spelling of the numbers involved
                 if let (LuaValue::String(claimed), Some(got)) = (&value, finished[0].value.as_ref()) {
